@@ -527,6 +527,8 @@ def nat_checkpoint_histories(h):
             shutil.rmtree(d, ignore_errors=True)
 
 
+from contracts.common import lazy_sym, lazy_nat   # noqa: E402
+
 ITEMS = [
     Item('ejson.round-trip', sym_ejson_roundtrip, [('differential', nat_ejson), ('microseconds', nat_microseconds)], EJ + '::CommonJSONEncoder.default'),
     Item('stream.res_writer', S.sym_res_writer, [], 'dataflows/processors/stream.py::stream.res_writer'),
@@ -536,4 +538,7 @@ ITEMS = [
     Item('checkpoint', S.sym_checkpoint, [('histories', nat_checkpoint_histories)], 'dataflows/processors/checkpoint.py::checkpoint._preprocess_chain'),
     Item('Flow._preprocess_chain', sym_flow_preprocess, [], 'dataflows/base/flow.py::Flow._preprocess_chain'),
     Item('recorded-findings', None, [('bounded', KF.nat_findings_c07)], 'dataflows/processors/unstream.py::unstream.res_reader'),
+    # a step that removes a resource behind an observer reads its rows to the end: the observer upstream (a checkpoint being written, a
+    # dump) only completes that resource -- and a sequential reader only reaches the next one -- when its consumer exhausts it
+    Item('delete_resource.drains', lazy_sym('C10', 'sym_delete_resource'), [], 'dataflows/processors/delete_resource.py::delete_resource.func'),
 ]
